@@ -143,13 +143,30 @@ func runHostile(text string, allowInclude bool, withFS bool, origin string, meas
 	return zr
 }
 
+// hostileCorpus: zone texts whose handling once told a broken parser from a sound one.
+var hostileCorpus = []string{
+	"$GENERATE 1-3 ${",
+	"$GENERATE 1-3 ${\nafter A 10.0.0.9\n",
+	"$GENERATE 1-3 a$ A ${1,2\nafter A 10.0.0.9\n",
+	"$GENERATE 1-3 a$ A 10.0.0.${0,3\n",
+	"$GENERATE 1-3 \"\nafter A 10.0.0.9\n",
+	"CH \tNSEC *1 . CLASS32 NSEC 3600 $GENERATE 0-70000 ) TYPE65280 $example.org. ",
+	"a NSEC b. A ) \nb A 10.0.0.1\n",
+	"$INCLUDE x sub\nafter A 10.0.0.9\n",
+	"a A 10.0.0.1 ) \nb A 10.0.0.2\n",
+	"TYPE\n", "CLASS\n", "a TYPE A\n", "a CLASS A\n", "a CLASS1x A 1.2.3.4\n", "a TYPE1x 1\n",
+}
+
 func runC07(c *Ctx) {
 	r := c.R
 	c.Res.Rule = "zone texts assembled from directive, type, escape, bracket and binary fragments (NUL, unterminated quotes / parentheses / escapes, long tokens and comments), with includes allowed or not, with and without an include FS, self-including files, oversized and nested $GENERATE; distinct by content"
 	n := c.Scale(6000, 150000)
-	for i := 0; i < n; i++ {
+	for i := 0; i < n+3*len(hostileCorpus); i++ {
 		text := genHostileZone(r)
-		if r.Chance(55) {
+		if i >= n {
+			// texts that once exposed a change (kept from earlier runs; the random stream drifts, these do not)
+			text = hostileCorpus[(i-n)/3]
+		} else if r.Chance(55) {
 			// mostly valid zone text with a small hostile edit
 			text = renderZone(r, genZone(r), 1, false)
 			if r.Chance(60) {
@@ -171,6 +188,9 @@ func runC07(c *Ctx) {
 		origin := []string{"", "example.org.", "."}[r.Intn(3)]
 		measure := i%64 == 0
 		hostileDefaultTTL = !r.Chance(15)
+		if i >= n {
+			allow, withFS, origin, hostileDefaultTTL = true, true, []string{".", "example.org.", ""}[(i-n)%3], true
+		}
 		zr := runHostile(text, allow, withFS, origin, measure)
 		in := fmt.Sprintf("allow=%v fs=%v origin=%q zone=%s", allow, withFS, origin, hxs(text))
 		nt := len(text) > 10
